@@ -39,7 +39,7 @@ Lemma sparse_unfold d table r rec cols chans :
   get_template_sparse argsort d table r = Some rec ->
   let kept := kept_positions cols chans in
   let ids := map (chan_at chans) kept in
-  let template := map (sparse_col (d_wmi d) cols chans (r_unwhiten r)) kept in
+  let template := map (sparse_col (d_wmi d) (d_scale d) cols chans (r_unwhiten r)) kept in
   let amp := map ptp template in
   let order := rev (argsort amp) in
   length cols = length chans /\ amp <> [] /\
@@ -70,11 +70,11 @@ Proof.
   destruct (forallb (chan_ok (length (d_pos d))) (map (fun i => nth i chans 0) kept)) eqn:Eok; cbn [negb]; [|discriminate].
   set (ids := map (chan_at chans) kept).
   assert (Htpl : (if r_unwhiten r
-                  then map (fun cj => ucol (map (fun i => nth i cols []) kept) (wcol (d_wmi d) ids cj) (n_samples cols)) ids
+                  then map (fun cj => ucol (map (fun i => nth i cols []) kept) (wcol (d_wmi d) ids cj) (n_samples cols) (d_scale d)) ids
                   else map (fun i => nth i cols []) kept)
-                 = map (sparse_col (d_wmi d) cols chans (r_unwhiten r)) kept).
+                 = map (sparse_col (d_wmi d) (d_scale d) cols chans (r_unwhiten r)) kept).
   { unfold sparse_col. fold kept. destruct (r_unwhiten r); [|reflexivity]. unfold ids. now rewrite map_map. }
-  rewrite Htpl. set (template := map (sparse_col (d_wmi d) cols chans (r_unwhiten r)) kept).
+  rewrite Htpl. set (template := map (sparse_col (d_wmi d) (d_scale d) cols chans (r_unwhiten r)) kept).
   destruct (map ptp template) as [|a0 ar] eqn:Eamp; [discriminate|]. rewrite <- Eamp.
   intros H; injection H as <-. cbn zeta. split; [exact Elen|]. split; [rewrite Eamp; discriminate|]. split; [|reflexivity].
   intros i Hi. rewrite forallb_forall in Eok.
@@ -88,13 +88,13 @@ Theorem sparse_spec d table r rec cols chans :
   (forall c, In c (t_channels rec) -> (c < length (d_pos d))%nat) /\
   exists sigma,
     Sparse_channels cols chans sigma rec /\
-    Sparse_aligned (d_wmi d) cols chans (r_unwhiten r) sigma rec /\
+    Sparse_aligned (d_wmi d) (d_scale d) cols chans (r_unwhiten r) sigma rec /\
     Sparse_sorted cols chans rec.
 Proof.
   intros E1 E2 H. destruct (sparse_unfold d table r rec cols chans E1 E2 H) as (Hlen & Hne & Hok & ->). clear H.
   set (kept := kept_positions cols chans) in *.
   set (ids := map (chan_at chans) kept).
-  set (template := map (sparse_col (d_wmi d) cols chans (r_unwhiten r)) kept).
+  set (template := map (sparse_col (d_wmi d) (d_scale d) cols chans (r_unwhiten r)) kept).
   set (amp := map ptp template) in *.
   set (order := rev (argsort amp)).
   assert (Hamp_len : length amp = length kept) by (unfold amp, template; now rewrite !map_length).
@@ -104,7 +104,7 @@ Proof.
   assert (Hsig : Permutation sigma kept) by (now apply gather_perm).
   assert (Hch : gather ids 0%nat order = map (chan_at chans) sigma).
   { unfold gather, ids. now apply gather_map. }
-  assert (Htp : gather template [] order = map (sparse_col (d_wmi d) cols chans (r_unwhiten r)) sigma).
+  assert (Htp : gather template [] order = map (sparse_col (d_wmi d) (d_scale d) cols chans (r_unwhiten r)) sigma).
   { unfold gather, template. now apply gather_map. }
   assert (Ham : gather amp 0 order = map ptp (gather template [] order)).
   { unfold gather, amp. apply gather_map. unfold template. rewrite map_length. exact Holt. }
